@@ -38,6 +38,23 @@ func init() {
 				}
 			}
 		}
+		return vs
+	})
+	// the retry loop of the TCP dialer: the first attempts end with EADDRNOTAVAIL or connected to
+	// themselves (local address == remote address) - explored environment answers
+	register("dial.retry", func(tier string) []Variant {
+		var vs []Variant
+		for _, target := range []string{"accept", "refuse"} {
+			target := target
+			vs = append(vs, Variant{
+				Name: fmt.Sprintf("target=%s,timeout=1s,dials=1,retry-answers", target),
+				Make: func() *vsched.Scenario { return dialScenario(target+"!retry", "1s", 1) },
+			})
+		}
+		return vs
+	})
+	register("dial.seq", func(tier string) []Variant {
+		var vs []Variant
 		// a history: a dial that fails (refused), then - same goroutine, same poller, the slot just
 		// released - a dial that must succeed and be usable
 		for _, seq := range []string{"refuse>unix-accept", "refuse>accept"} {
@@ -71,6 +88,8 @@ func isNilConn(c netpoll.Connection) bool {
 }
 
 func dialScenario(target, timeout string, dials int) *vsched.Scenario {
+	retryAnswers := strings.HasSuffix(target, "!retry")
+	target = strings.TrimSuffix(target, "!retry")
 	var res []*dialRes
 	var lfd int
 	var fillers []int
@@ -81,6 +100,7 @@ func dialScenario(target, timeout string, dials int) *vsched.Scenario {
 		srvCounter++
 		network, addr := "tcp", ""
 		uname := fmt.Sprintf("verif-dial-%d-%d", syscall.Getpid(), srvCounter)
+		vsyscall.L().Dev.DialRetry = retryAnswers
 		sequential := strings.Contains(target, ">")
 		first, second := target, target
 		if sequential {
@@ -181,6 +201,9 @@ func dialScenario(target, timeout string, dials int) *vsched.Scenario {
 		accepts := dials
 		if sequential {
 			accepts = 1
+		}
+		if retryAnswers {
+			accepts = dials + 2 // attempts that connected and were given up are accepted (and see EOF) too
 		}
 		if second == "accept" || second == "accept-reset" || second == "unix-accept" {
 			vsched.Go("acceptor", func() {
